@@ -425,7 +425,20 @@ class Exec:
     # ------------------------------------------------------------------ ghost state
     def ghost_trigger(self, method, path, args):
         c = self.cur_contract
-        if c is None or not c.ghost_on or self.cur_fnode is not self.fnode:
+        if c is None or self.cur_fnode is not self.fnode:
+            return
+        # lemma instances at a program point (just before / after a named call), over the function's own variables
+        for meth, facts in getattr(c, 'facts_on', ()):
+            if meth != method or self.dry:
+                continue
+            env = S.Env(self, self.store, dict(self.names), self.this_path, {})
+            extra = dict(self.spec_lets)
+            for ai, av in enumerate(args):
+                extra['arg%d' % ai] = env.wrap(av)
+            for e in facts:
+                self.assume(S.spec_eval(e, env, extra))
+                self.assumed.add('lemma instance: ' + e)
+        if not c.ghost_on:
             return
         for meth, var, updates in c.ghost_on:
             if meth != method:
